@@ -59,11 +59,12 @@ def special_values(draw, spec, cfg, parent="root"):
     The dimension form is generated where the library dispatches it: at the
     root and for struct fields (tuples are unpacked there); for array items and
     reference targets only with exactly one dynamic dimension (a bare int)."""
+    cfg = tg.cfg_for(spec, cfg)
     k = spec["k"]
     if k == "string":
         if draw(st.integers(0, 5)) == 0:
-            return {"$cap": draw(st.integers(1, 24))}
-        return draw(tg._text)
+            return {"$cap": draw(st.sampled_from([255, 256, 257, 300, 4096]) if cfg.is_big and draw(st.integers(0, 1)) else st.integers(1, 24))}
+        return draw(tg.texts(cfg))
     if k == "scalar":
         return draw(tg.scalar_values(spec["t"]))
     if k == "struct":
@@ -83,7 +84,7 @@ def special_values(draw, spec, cfg, parent="root"):
                 return {"$dims": [draw(tg.dyn_extents(cfg)) for _ in range(ndyn)]}
         shape = [draw(tg.dyn_extents(cfg)) if d is None else d for d in spec["shape"]]
         n = math.prod(shape)
-        return {"shape": shape, "flat": [special_values(draw, spec["item"], cfg, "array") for _ in range(n)]}
+        return {"shape": shape, "flat": tg.pooled(draw, n, lambda: special_values(draw, spec["item"], cfg, "array"))}
     if k == "ref":
         if draw(st.integers(0, 3)) == 0:
             return None
@@ -98,7 +99,7 @@ def special_values(draw, spec, cfg, parent="root"):
 
 @st.composite
 def cases(draw, tier):
-    cfg = tg.Cfg(tier)
+    cfg = tg.Cfg(tier, big_weight=8)
     spec = draw(tg.type_specs(cfg))
     value = special_values(draw, spec, cfg)
     forms = draw(st.lists(st.integers(0, 11), max_size=12))
@@ -153,6 +154,14 @@ def build(case):
     kw = placement_kwargs(p, ctx, buf, size)
     obj = sut(mat.construct, node, value, mat.Forms(case["forms"]), env, **kw)
     labels |= {"form:" + f for f in env.forms_used}
+    if not is_raised(obj) and hasattr(obj, "_buffer"):
+        try:
+            sz = int(obj._size) if getattr(obj, "_size", None) is not None else int(type(obj)._size)
+        except Exception:
+            sz = 0
+        for lim in (256, 4096, 65536):
+            if sz > lim:
+                labels.add(f"object_larger_than_{lim}_bytes")
     if buf is not None:
         labels.add("place:" + p["buf"])
         if p["pre"]:
